@@ -196,6 +196,13 @@ pub enum ClosedIndex {
 }
 
 impl ClosedEventIndex {
+    /// A probe that tells whether the background flush started by `close` has written
+    /// the index file.
+    pub fn flushed_probe(&self) -> impl FnMut() -> bool + Send + 'static {
+        let mut index = self.index.clone();
+        move || matches!(**index.load(), ClosedIndex::Mphf { .. })
+    }
+
     pub fn open(id: BucketSegmentId, path: impl AsRef<Path>) -> Result<Self, EventIndexError> {
         let mut file = OpenOptions::new().read(true).write(true).open(path)?;
         let (mphf, _, records_offset) = load_index_from_file(&mut file)?;
